@@ -15,6 +15,9 @@
 //!   new | part <id> <value> <intended> <skim|none> <total> <cltv> <tag> <ev> | tick | block <h> | claim <known> |
 //!   claimdone | failback      -> inconsistent? claimable:<amt>:<skimmed>:<deadline>? fail:<id>* fulfil:<id>* claimed:<amt>:<skimmed>:<total>? | none
 //!   admit <allow_underpay> <onion_amt> <amt> <skim|none>   -> ok | low     (the amount test in front of the accumulator)
+//!   recv <id> <value> <intended> <skim> <total> <cltv> <tag> <ev> <onion_cltv> <height> <allow_underpay> <none|ok|bad> <payment_data 0|1> <verify ok 0|1> <min_final_cltv|none>
+//!                                                            -> the answer of the part / the refusal (whole receive path, stateless)
+//!   restart                                                 -> none   (receiver written + reloaded; the accumulator survives, timer ticks read back as 0)
 //!   routing <none|ok|bad> <0|1>                             -> keysend | invoice | err <reason>  (create_recv_pending_htlc_info's routing selection)
 //!   mincltv <height> <min_final_cltv_delta> <cltv_expiry>  -> ok | soon    (the test after inbound_payment::verify in process_receive_htlcs)
 //! `value` is the amount of the update_add_htlc the receiver got, `intended` the onion's amt_to_forward, `skim` the
@@ -718,6 +721,17 @@ mod mpp {
 			let failed = seen.fails.contains(&id);
 			let low = failed && seen.handling_failed.iter().any(|t| t.contains("FinalIncorrectHTLCAmount"));
 			let reached = !failed || seen.handling_failed.iter().any(|t| t.contains("Receive") && t.contains("IncorrectPaymentDetails"));
+			// ---- the whole receive path in one op (Model.receive: the translated tests in the order of the Rust text, then the
+			// accumulator): same answer as the real node gave for this HTLC, whatever stage refused it
+			{
+				let bad_pre = seen.handling_failed.iter().any(|t| t.contains("InvalidKeysendPreimage"));
+				if low || reached || bad_pre {
+					let ans = if low { format!("fail:{} why:FinalIncorrectHTLCAmount", id) } else if bad_pre { format!("fail:{} why:InvalidKeysendPreimage", id) } else { seen.answer() };
+					let rop = format!("recv {} {} {} {} {} {} {} {} {} {} {} {} {} 1 {}", id, add.amount, p.amt, skim_tok, p.total, add.cltv, tag, ev.is_some() as u8, add.cltv, h0, (!strict) as u8,
+						match p.ks { 0 => "none", 1 => "ok", _ => "bad" }, (!p.nosec) as u8, self.min_cltv.map(|m| m.to_string()).unwrap_or("none".into()));
+					rec.case(&rop, &ans, &format!("recv:{}", if low { "amount" } else if bad_pre { "keysend-preimage" } else if failed { "refused-later" } else { "accumulated" }), true);
+				}
+			}
 			if low || reached {
 				let allow = !strict;
 				let want_low = if allow { add.amount.saturating_add(add.skim.unwrap_or(0)) < p.amt } else { add.amount < p.amt };
@@ -1010,6 +1024,32 @@ mod mpp {
 		}
 
 		/// connect single blocks until the receiver is at `target`
+		/// the receiver is written to disk and reloaded (ChannelManager + monitors), its peers reconnect: the held HTLCs of this hash
+		/// must all still be there (nothing failed, fulfilled or announced by the reload); the model's `restart` keeps the accumulator
+		/// (timer_ticks are read back as 0)
+		fn op_restart(&mut self, w: &mut World, rec: &mut Rec) {
+			if self.dead { return; }
+			let (tpos, epos) = (w.net.trace.len(), w.net.events[RECV].len());
+			let peers: Vec<usize> = { let mut v: Vec<usize> = w.net.chans.iter().filter(|c| c.0 == RECV || c.1 == RECV).map(|c| if c.0 == RECV { c.1 } else { c.0 }).collect(); v.sort(); v.dedup(); v };
+			let r = guarded(AssertUnwindSafe(|| -> Result<(), String> {
+				w.net.restart(RECV)?;
+				for j in peers.iter() { w.net.reconnect(*j, RECV); }
+				w.net.pump_all(); w.net.settle(60);
+				Ok(())
+			}));
+			match r {
+				Ok(Ok(())) => {},
+				Ok(Err(e)) => { rec.oracle_fail(format!("[{}] the receiver could not be reloaded while holding {:?}: {}; ops: {}", self.kind, self.held, short(&e), self.history())); self.dead = true; w.bad = true; return; },
+				Err(e) => { rec.oracle_fail(format!("[{}] panic while reloading the receiver holding {:?}: {}; ops: {}", self.kind, self.held, short(&e), self.history())); self.dead = true; w.bad = true; return; },
+			}
+			w.strict.clear();
+			let seen = observe(w, &self.hash, tpos, epos);
+			if !seen.nothing() { rec.oracle_fail(format!("[{}] reloading the receiver changed the pending payment: {} (held {:?}); ops: {}", self.kind, seen.answer(), self.held, self.history())); }
+			rec.case("restart", &seen.answer(), if self.claimable_set.is_some() { "restart:claimable-set" } else if self.held.is_empty() { "restart:empty" } else { "restart:between-parts" }, true);
+			self.ops.push("restart".into());
+			self.absorb(w, rec, &seen, "restart");
+		}
+
 		fn blocks_to(&mut self, w: &mut World, rec: &mut Rec, target: u32) {
 			let mut guard = 0;
 			while !self.dead && w.height() < target && guard < 200 { self.op_block(w, rec, None); guard += 1; }
@@ -1197,7 +1237,7 @@ mod mpp {
 	const KINDS: &[(&str, u64)] = &[
 		("exact", 22), ("overlast", 6), ("tick-between", 10), ("under", 9), ("over", 9), ("bad-total", 8), ("tlv-mix", 10), ("even-all", 8),
 		("secret-mix", 6), ("deadline", 12), ("unmodelled", 9), ("during-claim", 7), ("skim", 24), ("skim-under", 7), ("overfwd", 7),
-		("deadline-order", 9), ("min-cltv", 10), ("keysend", 12),
+		("deadline-order", 9), ("min-cltv", 10), ("keysend", 12), ("restart", 9),
 	];
 	/// schedules that leave HTLCs stuck in the receiver's channels: run as the last scenario of a network
 	const LAST_KINDS: &[&str] = &["claim-incomplete", "deadline-drop", "under-claim"];
@@ -1500,6 +1540,32 @@ mod mpp {
 				}
 				s.finish(w);
 			},
+			"restart" => {
+				// the recipient is written and reloaded between part k and k+1 of an MPP (and sometimes again between PaymentClaimable
+				// and the claim): all-or-nothing and the claim_deadline (= min cltv - buffer over ALL parts, also those received before
+				// the reload) must be what they are without the reload (the usual oracles of op_part / op_claim)
+				let k = 2 + rng.below(2) as usize;
+				let total = pick_total(rng, k);
+				let amts = split(rng, total, k);
+				let min = pick_min(rng, total);
+				let mut s = Scn::new(w, rec, rng, kind, min, false, 7200);
+				let mut g = Gen { rng: &mut *rng, routes: nroutes, lsp: lsp.clone() };
+				let mut parts = g.parts(&amts, total, Tlv::No, false);
+				for p in parts.iter_mut() { p.strict = false; p.declare = 0; if rng.chance(1, 4) { p.via = None; } }
+				let at = rng.below(k as u64 - 1) as usize;
+				let mut last = PartOut::Abort;
+				for (i, p) in parts.iter().enumerate() {
+					last = s.op_part(w, rec, p);
+					if last == PartOut::Abort { break; }
+					if i == at || (i + 1 < parts.len() && rng.chance(1, 4)) { s.op_restart(w, rec); if rng.chance(1, 3) { s.op_block(w, rec, None); } }
+				}
+				if s.dead { last = PartOut::Abort; }
+				if last == PartOut::Claimable {
+					if rng.chance(1, 2) { s.op_restart(w, rec); }
+					if !s.dead { tail_complete(w, rec, rng, &mut s, false, total); }
+				} else if !s.dead { if rng.chance(1, 2) { s.op_tick(w, rec) } else { s.op_failback(w, rec) } }
+				s.finish(w);
+			},
 			"keysend" => {
 				// spontaneous payments (the onion carries a keysend preimage; inbound_payment::verify is skipped): alone without a payment
 				// secret, as MPP with one, with a preimage that does not hash to the payment hash (refused before the payment logic),
@@ -1743,7 +1809,7 @@ mod mpp {
 	over = extra part(s) after completion; bad-total = a part with another total_msat; tlv-mix = even/odd custom TLV mismatches; even-all = same even TLV on all parts then claim 0 / claim 1; secret-mix = second valid secret for the same hash; \
 	during-claim = the set arrives over one channel, claim_funds runs with the receiver's monitor updates held InProgress on that channel, a new part arrives over another channel (failed: the hash is in pending_claiming_payments), then the updates complete (fulfils + PaymentClaimed are attributed to the claim line, the late part's failure to its part line); deadline-order = 2-3 direct parts over distinct channels with different final CLTV expiries, the earliest-expiring one on the lowest channel id or (2 of 3) not, any arrival order, single blocks up to the ADVERTISED claim_deadline-1, then claim (must fulfil all); deadline = single blocks up to claim_deadline-1 then claim, or up to claim_deadline (parts fail by their own cltv) then claim/failback/tick/more blocks; claim-incomplete, under-claim, deadline-drop = claims that drop HTLCs silently (network abandoned afterwards); \
 	complete sets end with claim / double claim / claim+failback / failback / failback+claim / ticks+claim / blocks+claim / claim+new part under the same hash. \
-	skim = every part through the intercepting node, complete on the sender-intended amounts although less arrived, then 1-3 timer ticks, single blocks with 0-2 ticks after each up to a chosen height <= claim_deadline-1, then claim / claim+tick / failback / run into the deadline (half of the ticks+claim tails of the other schedules do the same walk); skim-under = skimmed parts that stay below total_msat, then tick / block+tick / failback; overfwd = over-paying forwards whose VALUES reach total_msat while the sender-intended amounts do not (held, failed by the tick); unmodelled (impl oracle, op `routing` only, no part op): wrong payment secret (1 bit flipped), total_msat below the invoice minimum, expired invoice, an onion without payment secret and without keysend preimage (refused with PaymentSecretRequired), each alone or as the completing part of a held set. Impl oracles: PaymentClaimable only for complete sets (sum intended >= total_msat) with amount = sum of values, counterparty_skimmed_fee_msat = sum of skims, deadline = min cltv - 39, and conversely a set that completes IS announced; a PaymentClaimable set loses no HTLC to a timer tick or a block below its claim_deadline (message carries the op history); an incomplete set is failed by the tick; claim below the deadline fulfils every part and yields PaymentClaimed with the announced amount / skim / total_msat and balance delta = amount; the receive-side amount test matches value (+ skim when allowed) >= onion amount; keysend = spontaneous payments sent through the keysend hook (preimage in the onion, hash chosen by the harness): alone without payment secret, as 2-part MPP with one, with a preimage that does not hash to the payment hash (op `routing bad ..`, oracle: refused with InvalidKeysendPreimage, never claimable), and against a held invoice part of the same hash / secret / total_msat in both orders (the later part is refused; oracle: a PaymentClaimable never covers keysend and invoice HTLCs together and carries the purpose of its parts); min-cltv = the secret commits to a min_final_cltv_expiry_delta M, 1-3 parts with final CLTV deltas M-4..M+30 around the boundary (op `mincltv height M cltv_expiry`, oracle: failed back iff cltv_expiry < receiver height + M, never shown to the user), blocks between, refused amounts re-sent with an acceptable expiry. Three probes on throw-away networks are in the notes (never in the compared stream): probe_inconsistent_claim, probe_timer_ticks_u8, probe_unsorted_incomplete_claim. distinct = distinct non-trivial op lines",
+	skim = every part through the intercepting node, complete on the sender-intended amounts although less arrived, then 1-3 timer ticks, single blocks with 0-2 ticks after each up to a chosen height <= claim_deadline-1, then claim / claim+tick / failback / run into the deadline (half of the ticks+claim tails of the other schedules do the same walk); skim-under = skimmed parts that stay below total_msat, then tick / block+tick / failback; overfwd = over-paying forwards whose VALUES reach total_msat while the sender-intended amounts do not (held, failed by the tick); unmodelled (impl oracle, op `routing` only, no part op): wrong payment secret (1 bit flipped), total_msat below the invoice minimum, expired invoice, an onion without payment secret and without keysend preimage (refused with PaymentSecretRequired), each alone or as the completing part of a held set. Impl oracles: PaymentClaimable only for complete sets (sum intended >= total_msat) with amount = sum of values, counterparty_skimmed_fee_msat = sum of skims, deadline = min cltv - 39, and conversely a set that completes IS announced; a PaymentClaimable set loses no HTLC to a timer tick or a block below its claim_deadline (message carries the op history); an incomplete set is failed by the tick; claim below the deadline fulfils every part and yields PaymentClaimed with the announced amount / skim / total_msat and balance delta = amount; the receive-side amount test matches value (+ skim when allowed) >= onion amount; keysend = spontaneous payments sent through the keysend hook (preimage in the onion, hash chosen by the harness): alone without payment secret, as 2-part MPP with one, with a preimage that does not hash to the payment hash (op `routing bad ..`, oracle: refused with InvalidKeysendPreimage, never claimable), and against a held invoice part of the same hash / secret / total_msat in both orders (the later part is refused; oracle: a PaymentClaimable never covers keysend and invoice HTLCs together and carries the purpose of its parts); restart = the receiver is serialized and reloaded (manager + monitors, peers reconnect) between part k and k+1 of a 2-3 part MPP and sometimes between PaymentClaimable and the claim (op `restart`, oracle: the reload fails / fulfils / announces nothing; completion, claim_deadline and all-or-nothing oracles as usual afterwards); min-cltv = the secret commits to a min_final_cltv_expiry_delta M, 1-3 parts with final CLTV deltas M-4..M+30 around the boundary (op `mincltv height M cltv_expiry`, oracle: failed back iff cltv_expiry < receiver height + M, never shown to the user), blocks between, refused amounts re-sent with an acceptable expiry. Three probes on throw-away networks are in the notes (never in the compared stream): probe_inconsistent_claim, probe_timer_ticks_u8, probe_unsorted_incomplete_claim. distinct = distinct non-trivial op lines",
 			done, worlds, abandoned, per_world, ks.join(" ")));
 		rec.finish();
 	}
